@@ -11,47 +11,98 @@ open Atree Gen
 /-- A freshly created array satisfies the invariant. -/
 theorem inv_new (T addr ty : Nat) (c : Ctx) (hT : legalThreshold T = true) :
     ArrInv T (Arr.new addr ty c).1 (Arr.new addr ty c).2.ctr := by
-  sorry
+  have F := thrFacts hT
+  refine ⟨(treeInv_zero T true _).2 ⟨rfl, ?_, ?_, rfl, ?_, ?_, ?_⟩, rfl, ?_, rfl, ?_⟩
+  · simp [Arr.new, DataSlab.prefixSize, sumSizes_nil]
+  · intro e he; simp [Arr.new] at he
+  · intro h; simp [Arr.new] at h
+  · simp only [Arr.new, F.rpfx, F.maxE]; have := F.lo; omega
+  · intro h; simp at h
+  · show IdsOk addr (c.ctr + 1) [⟨addr, c.ctr + 1⟩]
+    exact ⟨by simp, fun id hid => by simp at hid; subst hid; exact ⟨rfl, by simp, by simp⟩⟩
+  · show (0 : Nat) < _
+    omega
 
 theorem inv_insert (T : Nat) (hT : legalThreshold T = true) (a : Arr) (c : Ctx) (i : Nat) (v : Elem)
     (hv : ValueOk v) (h : ArrInv T a c.ctr) (a' : Arr) (c' : Ctx)
     (hr : a.insert T i v c = .ok (a', c')) : ArrInv T a' c'.ctr := by
-  sorry
+  have hne : a.count ≠ maxArrayElementCount := by
+    intro heq
+    unfold Arr.insert at hr
+    rw [if_pos heq] at hr
+    cases hr
+  have hlt : a.count < maxArrayElementCount := by have := h.count_lt; omega
+  rcases Nat.lt_or_ge a.toList.length i with hi | hi
+  · rw [arr_insert_err a c i v h hne hi] at hr; cases hr
+  · obtain ⟨a2, c2, heq, hinv, _⟩ := arr_insert_ok hT a c i v hv h hlt hi
+    rw [heq] at hr
+    cases hr
+    exact hinv
 
 theorem inv_set (T : Nat) (hT : legalThreshold T = true) (a : Arr) (c : Ctx) (i : Nat) (v : Elem)
     (hv : ValueOk v) (h : ArrInv T a c.ctr) (old : Elem) (a' : Arr) (c' : Ctx)
     (hr : a.set T i v c = .ok (old, a', c')) : ArrInv T a' c'.ctr := by
-  sorry
+  rcases Nat.lt_or_ge i a.toList.length with hi | hi
+  · obtain ⟨a2, c2, heq, hinv, _⟩ := arr_set_ok hT a c i v hv h hi
+    rw [heq] at hr
+    cases hr
+    exact hinv
+  · rw [arr_set_err a c i v h hi] at hr; cases hr
 
 theorem inv_remove (T : Nat) (hT : legalThreshold T = true) (a : Arr) (c : Ctx) (i : Nat)
     (h : ArrInv T a c.ctr) (old : Elem) (a' : Arr) (c' : Ctx)
     (hr : a.remove T i c = .ok (old, a', c')) : ArrInv T a' c'.ctr := by
-  sorry
+  rcases Nat.lt_or_ge i a.toList.length with hi | hi
+  · obtain ⟨a2, c2, heq, hinv, _⟩ := arr_remove_ok hT a c i h hi
+    rw [heq] at hr
+    cases hr
+    exact hinv
+  · rw [arr_remove_err a c i h hi] at hr; cases hr
 
 theorem inv_popIterate (T : Nat) (hT : legalThreshold T = true) (a : Arr) (c : Ctx)
     (h : ArrInv T a c.ctr) : ArrInv T (a.popIterate c).2.1 (a.popIterate c).2.2.ctr := by
-  sorry
+  exact arr_popIterate_inv hT a c h
 
 theorem inv_setType (T : Nat) (a : Arr) (c : Ctx) (ty : Nat) (h : ArrInv T a c.ctr) :
     ArrInv T (a.setType ty c).1 (a.setType ty c).2.ctr := by
-  sorry
+  have hc : (a.setType ty c).2.ctr = c.ctr := by
+    unfold Arr.setType; simp only; split <;> rfl
+  rw [hc]
+  obtain ⟨d, t, ty0⟩ := a
+  exact ⟨h.tree, h.chain, h.ids, (isInlined_iff d t ty).2 ((isInlined_iff d t ty0).1 h.standalone),
+    h.count_lt⟩
 
 /-- Consequences of the invariant that the property names explicitly. -/
 theorem full_slab_has_two_elems (T : Nat) (hT : legalThreshold T = true) (s : DataSlab)
     (hs : s.hdr.size = s.prefixSize + sumSizes s.elems) (he : ∀ e ∈ s.elems, ElemOk T e)
     (hfull : T ≤ s.hdr.size) : 2 ≤ s.elems.length := by
-  sorry
+  refine DataSlab.two_le_of_full T hT s ?_ he hfull
+  rw [hs]
+  have : s.prefixSize ≤ arrayDataSlabPrefixSize := by
+    unfold DataSlab.prefixSize
+    split
+    · simp [inlinedArrayDataSlabPrefixSize, arrayDataSlabPrefixSize]
+    · split
+      · simp [arrayRootDataSlabPrefixSize, arrayDataSlabPrefixSize]
+      · exact Nat.le_refl _
+  omega
 
 /-- Two maximal elements always fit into one slab of the target size. -/
 theorem two_max_elems_fit (T : Nat) (hT : legalThreshold T = true) :
     arrayDataSlabPrefixSize + 2 * maxInlineArr T ≤ T := by
-  sorry
+  exact two_max_elems_fit' T hT
 
 /-- Index data agrees with the data it summarises: positional access through the index slabs
     and sequential traversal along the sibling links enumerate the same elements. -/
 theorem access_agree (T : Nat) (hT : legalThreshold T = true) (a : Arr) (ctr : Nat) (h : ArrInv T a ctr) :
     a.iterReadOnly = a.toList ∧ a.iterMutable = .ok a.toList ∧ a.count = a.toList.length ∧
     (∀ i, i < a.count → a.get i = .ok (a.toList.getD i default)) := by
-  sorry
+  refine ⟨iterReadOnly_eq a ctr h, iterMutable_eq hT a ctr h, ?_, ?_⟩
+  · obtain ⟨d, t, ty⟩ := a
+    exact h.shape.count_eq_length
+  · intro i hi
+    obtain ⟨d, t, ty⟩ := a
+    have hc : (ATree.hdr d t).count = (ATree.flatten d t).length := h.shape.count_eq_length
+    exact (get_gen hT d t true i h.shape).1 (by rw [← hc]; exact hi)
 
 end Atree.C05
